@@ -11,6 +11,7 @@ Oracle:  the property text on the real code: rigidity, exactness against ground 
          optimum, de-flipping, uniform scaling, both scale factors, inputs unchanged.
 """
 import ast
+import copy
 import math
 import os
 from fractions import Fraction
@@ -174,7 +175,34 @@ def gen_scale_case(rng):
     if rng.random() < 0.2:
         k = rng.choice([1e-3, 1e3, 0.5, 2.0])
         actual[1] = [x * k for x in actual[1]]
-    return {'kind': 'scale_fixed', 'bs': bs, 'cf': cf, 'expected': expected, 'actual': actual,
+    case = {}
+    if rng.random() < 0.5:
+        # shared references: one Pose instance at several list positions / under several base-station ids, the `actual`
+        # pose being one of cf_poses, one ndarray object used as the translation of two different Pose instances
+        cf_same, bs_same = list(range(len(cf))), list(range(len(bs)))
+        if rng.random() < 0.7:
+            _alias(rng, cf, cf_same)
+        if rng.random() < 0.5:
+            j = rng.randrange(len(bs))
+            free = [b for b in range(16) if b not in [x[0] for x in bs]]
+            bs.append([rng.choice(free), copy.deepcopy(bs[j][1]), list(bs[j][2])])
+            bs_same.append(bs_same[j])
+        case = {'cf_same': cf_same, 'bs_same': bs_same}
+        if cf and rng.random() < 0.5:
+            k = rng.randrange(len(cf))
+            actual = copy.deepcopy(cf[k])
+            case['actual_is_cf'] = k
+        groups = sorted(set(cf_same))
+        if len(groups) >= 2 and rng.random() < 0.5:
+            g1, g2 = rng.sample(groups, 2)
+            i, j = cf_same.index(g1), cf_same.index(g2)
+            for p in range(len(cf)):
+                if cf_same[p] == g2:
+                    cf[p][1] = list(cf[i][1])
+            if case.get('actual_is_cf') is not None and cf_same[case['actual_is_cf']] == g2:
+                actual[1] = list(cf[i][1])
+            case['share_t'] = [i, j]
+    return {'kind': 'scale_fixed', 'bs': bs, 'cf': cf, 'expected': expected, 'actual': actual, **case,
             'container': _pick_kind(rng), 'seq': rng.choice(['list', 'tuple']), 'pose_readonly': rng.random() < 0.3}
 
 
@@ -247,8 +275,17 @@ def gen_diag_case(rng, lib_constant=False):
         cf.append([Rc, tc])
         samples.append(seen)
         ci += 1
+    cf_same = list(range(len(cf)))
+    if rng.random() < 0.4:      # a Crazyflie sampled repeatedly at one spot: the same Pose instance at several positions
+        for _ in range(rng.randint(1, 2)):
+            j = rng.randrange(len(cf))
+            pos = rng.randint(0, len(cf))
+            cf.insert(pos, copy.deepcopy(cf[j]))
+            samples.insert(pos, copy.deepcopy(samples[j]))
+            tilts.insert(pos, tilts[j])
+            cf_same.insert(pos, cf_same[j])
     inv = 1.0 / s
-    return {'kind': 'scale_diag', 'factor': s, 'expected_diagonal': LIB_DIAGONAL if lib_constant else DECK_DIAG,
+    return {'kind': 'scale_diag', 'cf_same': cf_same, 'factor': s, 'expected_diagonal': LIB_DIAGONAL if lib_constant else DECK_DIAG,
             'tilt_deg': tilts, 'seq': rng.choice(['list', 'tuple']), 'pose_readonly': rng.random() < 0.3,
             'bs': [[b, R, [v * inv for v in t]] for b, R, t in bs],
             'cf': [[R, [v * inv for v in t]] for R, t in cf],
@@ -263,8 +300,32 @@ def _pose(P):
     return Pose(np.array(P[0], dtype=float), np.array(P[1], dtype=float))
 
 
-def _bsdict(bs):
-    return {int(b): _pose([R, t]) for b, R, t in bs}
+def _poses(vals, same=None):
+    """Pose objects for a list of [R, t] values; positions with the same group id in `same` are ONE Pose instance."""
+    objs, out = {}, []
+    for i, P in enumerate(vals):
+        g = same[i] if same else i
+        if g not in objs:
+            objs[g] = _pose(P)
+        out.append(objs[g])
+    return out
+
+
+def _bsdict(bs, same=None):
+    ps = _poses([[R, t] for _, R, t in bs], same)
+    return {int(b): p for (b, _, _), p in zip(bs, ps)}
+
+
+def _alias(rng, vals, same, n_max=2):
+    """Insert up to n_max repeated references (same group id, same value) at random positions."""
+    for _ in range(rng.randint(1, n_max)):
+        if not vals:
+            return
+        j = rng.randrange(len(vals))
+        pos = rng.randint(0, len(vals))
+        v, g = copy.deepcopy(vals[j]), same[j]
+        vals.insert(pos, v)
+        same.insert(pos, g)
 
 
 def _snap1(o):
@@ -486,9 +547,14 @@ def _run_scale_fixed(case, plain=False):
     """plain: the tie's call (float64 arrays, lists); otherwise the container kinds recorded in the case."""
     S = _cf()[1]
     np = _np()
-    bs = _bsdict(case['bs'])
-    cf = [_pose(P) for P in case['cf']]
+    bs = _bsdict(case['bs'], None if plain else case.get('bs_same'))
+    cf = _poses(case['cf'], None if plain else case.get('cf_same'))
     actual = _pose(case['actual'])
+    if not plain and case.get('actual_is_cf') is not None:
+        actual = cf[case['actual_is_cf']]
+    if not plain and case.get('share_t'):
+        i, j = case['share_t']
+        cf[j]._t_vec = cf[i]._t_vec          # one ndarray object, two Pose instances
     in_expected = _box(case['expected'], 'arrays' if plain else case.get('container', 'arrays'), single=True)
     if not plain and case.get('pose_readonly'):
         _freeze(list(bs.values()) + cf + [actual])
@@ -523,7 +589,14 @@ def check_scale_fixed(case):
         worst = max(worst, np.abs(b.translation - f * a.translation).max() / (1e-300 + abs(f) * (1 + np.abs(a.translation).max())))
     if not worst <= 1e-12:
         return {'class': 'scale_not_uniform', 'case': case, 'expected': 'every translation times the returned factor',
-                'observed': float(worst)}
+                'observed': float(worst),
+                'detail': 'scale_fixed_point: some output translation is not factor * input translation (shared references: '
+                          'cf_same=%s bs_same=%s actual_is_cf=%s share_t=%s)' % (
+                              case.get('cf_same'), case.get('bs_same'), case.get('actual_is_cf'), case.get('share_t'))}
+    outs = list(bs2.values()) + list(cf2)
+    if len({id(p) for p in outs}) != len(outs) or len({id(p._t_vec) for p in outs}) != len(outs):
+        return {'class': 'scale_outputs_aliased', 'case': case, 'expected': 'one fresh copy per entry',
+                'observed': 'two result entries are the same Pose object or share a translation array'}
     want = np.linalg.norm(expected)
     got = np.linalg.norm(actual.translation * f)
     tol = 1e-5 if case.get('container') == 'f32' else 1e-9      # float32 norm inside numpy: 6e-8 relative
@@ -535,7 +608,7 @@ def check_scale_fixed(case):
 def _diag_objects(case):
     _, S, Pose, Smp, V, Vs = _cf()
     bs = _bsdict(case['bs'])
-    cf = [_pose(P) for P in case['cf']]
+    cf = _poses(case['cf'], case.get('cf_same'))
     samples = []
     for smp in case['samples']:
         ang = {}
@@ -588,6 +661,15 @@ def check_scale_diag(case):
         worst = max(worst, np.abs(bs2[bid].translation - np.array(t)).max() / (1 + np.abs(np.array(t)).max()))
         if np.array(bs2[bid].rot_matrix).tobytes() != np.array(bs[bid].rot_matrix).tobytes():
             return {'class': 'scale_changes_rotation', 'case': case, 'expected': 'rotation unchanged', 'observed': 'changed'}
+    for a, b in [(bs[k], bs2[k]) for k in bs] + list(zip(cf, cf2)):
+        if not np.abs(b.translation - f * a.translation).max() <= 1e-12 * abs(f) * (1 + np.abs(a.translation).max()):
+            return {'class': 'scale_not_uniform', 'case': case, 'expected': 'every translation times the returned factor',
+                    'observed': [b.translation.tolist(), (f * a.translation).tolist()],
+                    'detail': 'scale_diagonals: output translation is not factor * input translation (cf_same=%s)' % case.get('cf_same')}
+    outs = list(bs2.values()) + list(cf2)
+    if len({id(p) for p in outs}) != len(outs) or len({id(p._t_vec) for p in outs}) != len(outs):
+        return {'class': 'scale_outputs_aliased', 'case': case, 'expected': 'one fresh copy per entry',
+                'observed': 'two result entries are the same Pose object or share a translation array'}
     for (R, t), p in zip(case['truth_cf'], cf2):
         worst = max(worst, np.abs(p.translation - np.array(t)).max() / (1 + np.abs(np.array(t)).max()))
     if not worst <= 2e-3:
